@@ -270,10 +270,14 @@ def run_history(impl, hist, out, first=None):
 
 
 
-def run_shielded(impl, hist, out):
+def run_shielded(impl, hist, out, lagging=False):
     """After the history, the oldest session has a healthy client (it polls and answers every PING) while every other
     session falls silent: within the heartbeat bound the table holds exactly that one session."""
-    w = peer.make_world(impl, server_kwargs=dict(ping_interval=INTERVAL2, ping_timeout=TIMEOUT, monitor_clients=True),
+    # lagging: ping_interval 1 s, ping_timeout 3 s, and every PONG of the healthy client takes 1.5 s to arrive (longer than an
+    # interval, well within the timeout) over eight heartbeat cycles
+    iv2, to2, lag = (1.0, 3.0, 1.5) if lagging else (INTERVAL2, TIMEOUT, 0.0)
+    mark = '@lag' if lagging else '@shield'
+    w = peer.make_world(impl, server_kwargs=dict(ping_interval=iv2, ping_timeout=to2, monitor_clients=True),
                         behaviour=RejectOnHeader())
     ss, rejected = [], []
     try:
@@ -285,14 +289,14 @@ def run_shielded(impl, hist, out):
         if any(not r.done and r.method == 'GET' for r in w.reqs):
             return None          # the healthy client starts from a state without a poll of its own outstanding
         t0 = w.now
-        ok = peer.keepalive(w, ss[0].sid, t0 + INTERVAL2 + 3 * TIMEOUT + 2 * TIMEOUT + 0.5 + INTERVAL2)
+        ok = peer.keepalive(w, ss[0].sid, t0 + max(iv2 + 3 * to2 + 2 * to2 + 0.5 + iv2, 8 * (iv2 + lag)), lag=lag)
         table = sorted(w.table_sids())
         if not ok or ss[0].sid not in w.live_sids():
             V(out, impl, 'live_peer_dropped', 'shielded', 'the healthy oldest session was dropped (disconnects %r)'
-              % [(e[1][-4:], e[2]) for e in w.events if e[0] == 'disconnect'], ('@shield',) + tuple(hist))
+              % [(e[1][-4:], e[2]) for e in w.events if e[0] == 'disconnect'], (mark,) + tuple(hist))
         elif table != [ss[0].sid]:
             V(out, impl, 'session_leaked', 'shielded', 'the oldest session is healthy, the others silent for %.1fs: table %r, want only %r'
-              % (w.now - t0, [x[-4:] for x in table], ss[0].sid[-4:]), ('@shield',) + tuple(hist))
+              % (w.now - t0, [x[-4:] for x in table], ss[0].sid[-4:]), (mark,) + tuple(hist))
         return True
     finally:
         _STEPS[0] += w.nstep
@@ -371,8 +375,8 @@ def _work(chunk):
     _STEPS[0] = 0
     for impl, hist in chunk:
         try:
-            if hist and hist[0] == '@shield':
-                if run_shielded(impl, hist[1:], out):
+            if hist and hist[0] in ('@shield', '@lag'):
+                if run_shielded(impl, hist[1:], out, lagging=hist[0] == '@lag'):
                     n += 1
                 continue
             if run_history(impl, hist, out):
@@ -406,6 +410,7 @@ def run(ctx):
         hists += [('@ping',) + t for t in _it.product(ACTIONS2, repeat=k)]
     for k in range(2, 4):
         hists += [('@shield', 'open') + t for t in _it.product(ACTIONS, repeat=k - 1)]
+    hists += [('@lag', 'open') + t for t in _it.product(ACTIONS, repeat=1)]
     # sessions that come and go while the monitor is in the middle of a sweep (its pauses between two sessions are deadlines
     # that 'tick' stops at): the youngest closes, time moves to the next deadline, a new session opens, ...
     for k in range(1, 5):
@@ -464,8 +469,8 @@ def replay(ctx, payload):
             print('REPLAY VIOLATION:', v)
         return 1 if ex.violations else 0
     out = []
-    if r['history'] and r['history'][0] == '@shield':
-        print('enabled:', run_shielded(r['impl'], tuple(r['history'][1:]), out))
+    if r['history'] and r['history'][0] in ('@shield', '@lag'):
+        print('enabled:', run_shielded(r['impl'], tuple(r['history'][1:]), out, lagging=r['history'][0] == '@lag'))
     else:
         print('enabled:', run_history(r['impl'], tuple(r['history']), out))
     for v in out:
